@@ -8,9 +8,10 @@
    Result: [Some out] is the returned slice; [None] stands for "a panic (index out of range or
    nil dereference) or loop fuel exhausted" -- LcsProofs.lcs_func_total proves it never happens.
 
-   Not expressed: the literal fields of the cell constructor [&seq{i - 1, p[i-1].n + 1, p[i-1]}]
-   (composite-literal elements have no anchor selector) are hand-copied below (tied by the
-   correspondence runs only); the initialisation loop `for i := range p` is [repeat Zero]. *)
+   The fields of the cell constructor [&seq{i - 1, p[i-1].n + 1, p[i-1]}] are generated too
+   (lit:seq#0@0..2).  Not expressed: the order of the fields in `type seq struct` (the literal is
+   positional), `p = p.prev` of the walk; the initialisation loop `for i := range p` is
+   [repeat Zero].  Those are tied by the correspondence runs only. *)
 From Coq Require Import ZArith List Bool.
 Import ListNotations.
 From Mds Require Import Gen.LcsIdx.
@@ -45,6 +46,15 @@ Section Lcs.
   Variable T : Type.
   Variable eqb : T -> T -> bool.
 
+  (* the third field of the cell literal: the generated lcs_cell_prev returns its first argument
+     for `p[i-1]`, its second for `c[i-1]`, its third for `p[i]`; anything else has no model *)
+  Definition lcs_cell_pick (i : Z) (p c : list cell) : option cell :=
+    let sel := lcs_cell_prev 0 1 2 in
+    if sel =? 0 then znth p (lcs_diag_idx i)
+    else if sel =? 1 then znth c (lcs_left_idx i)
+    else if sel =? 2 then znth p (lcs_up_idx i)
+    else None.
+
   (* for i := 1; i <= len(as); i++ { ... } on row j; returns the filled buffer c *)
   Fixpoint lcs_fill (fuel : nat) (xs ys : list T) (j i : Z) (p c : list cell)
     : option (list cell) :=
@@ -56,9 +66,11 @@ Section Lcs.
         | Some a, Some b =>
           let step :=
             if eqb a b then
-              (* c[i] = &seq{i - 1, p[i-1].n + 1, p[i-1]} *)
-              match znth p (lcs_diag_idx_n i), znth p (lcs_diag_idx i) with
-              | Some dn, Some d => zupd c (lcs_match_dst i) (Cell (i - 1) (cell_n dn + 1) d)
+              (* c[i] = &seq{i - 1, p[i-1].n + 1, p[i-1]}: the three fields are the generated
+                 lcs_cell_i, lcs_cell_n and (a selector among the neighbour cells) lcs_cell_prev *)
+              match znth p (lcs_diag_idx_n i), lcs_cell_pick i p c with
+              | Some dn, Some d =>
+                zupd c (lcs_match_dst i) (Cell (lcs_cell_i i) (lcs_cell_n (cell_n dn)) d)
               | _, _ => None
               end
             else
